@@ -15,8 +15,8 @@ contract(
 contract(
     "dvc_data.index.collect:collect",
     verify=False,
-    bounded=("bounded/push_fetch.py", 25, 300),
-    props=["C18"],
+    bounded=("bounded/push_fetch.py", 30, 400),
+    props=["C18", "C04"],
     doc="collect + push + fetch on generated multi-prefix indexes: every remote holds the objects the mapping designates for it",
 )
 for q in ("dvc_data.hashfile.transfer:_do_transfer",):
